@@ -654,14 +654,14 @@ class C04(Prop):
                   "model_satisfies_spec: every clause the oracle applies to one evaluation (no limit error swallowed, instructions <= "
                   "budget + allowance, depth, stack incl. slots written between fetches, both stacks unwound, nothing completes after an "
                   "expiry) is empty on every model run; (2) a byte-code level machine of eval_instruction's loop: backward jumps + calls + "
-                  "callbacks <= ticks <= budget for every program and branch oracle, with the charge of a fetch built from facts regenerated "
+                  "callbacks <= ticks <= budget for every program and branch oracle, and no run stays running for `budget` turns, with the charge of a fetch built from facts regenerated "
                   "from src/interpret.c (test before the dispatch, no goto, list of backward-branch opcodes); (3) the size decision of every "
                   "array / buffer / mapping / string constructor incl. mapping * mapping, save_variable / restore_variable, regexp, "
                   "reg_assoc for all operand sizes and int64 arguments - szCmd_satisfies_spec: the size clause never fires on the model's "
                   "answer to any constructor command; (4) the depth-limited value walks (svalue_save_size, copy) for every value; "
                   "(5) mapping count = nodes across inserts, partially applied `+=` and in-place `*=`; (6) every statement that writes eval_cost "
                   "or the configured budget, regenerated as an inventory and justified by a rule table; regexp matching charged against the budget.  Tied to the source by regenerated "
-                  "constants, 63 guard sites, the opcode lists, the refill inventory, and by running generated LPC programs and constructor calls on the real "
+                  "constants, 64 guard sites, the opcode lists, the refill inventory, and by running generated LPC programs and constructor calls on the real "
                   "driver under small limits; the Lean oracle judges every implementation trace")
     level_note = ("trusted: Lean kernel; extract.py; props/c04.py as the translator from a shape term to LPC source and as the "
                   "(regex / brace-matching) reader of the guard sites and of eval_instruction's switch; the correspondence harness "
@@ -1047,7 +1047,8 @@ class C04(Prop):
                                  ["unique_mapping 200 50", "unique_mapping 200 100", "unique_mapping 200 101", "unique_mapping 200 0",
                                   "unique_mapping 100 0", "unique_mapping 0 0", "unique_mapping 301 5"]))
         B.append(self.sizes_case("b-sz-save-nested-map", {"string": 1000},
-                                 ["save_nested_map 1", "save_nested_map 25", "save_nested_map 26", "save_nested_map 27", "save_nested_map 2"]))
+                                 ["save_nested_map 1", "save_nested_map 25", "save_nested_map 26", "save_nested_map 27", "save_nested_map 2",
+                                  "save_depth 25", "save_depth 26", "save_depth 40", "save_depth_map 25", "save_depth_map 26", "save_depth_map 1"]))
         B.append(self.mapseq_case("b-map-compose", 20, ["a100:15:15", "c105:5:5", "i300n", "cs:6", "a400:20:20", "c0:0:0", "i1n", "a500:19:19", "i2n"]))
         return B
 
@@ -1147,7 +1148,7 @@ class C04(Prop):
                     n_ = min(near(la, False), la + 1, 2000)
                     cmds.append("unique_mapping %d %d" % (n_, rng.choice([0, 1, lm - 1, lm, lm + 1, n_ // 2, n_])))
                 elif d == "save_nested_map":
-                    cmds.append("save_nested_map %d" % rng.choice([1, 2, 10, 24, 25, 26, 27, 40]))
+                    cmds.append("%s %d" % (rng.choice(["save_nested_map", "save_depth", "save_depth_map"]), rng.choice([1, 2, 10, 24, 25, 26, 27, 40])))
                 elif d in ("map_compose", "map_compose_eq"):
                     c1, c2 = rng.range(0, lm), rng.range(0, lm)
                     cmds.append("%s %d %d %d" % (d, c1, c2, rng.choice([0, 1, min(c1, c2) // 2, min(c1, c2)])))
